@@ -373,6 +373,32 @@ class TreeRun(object):
             else:
                 s.transact(q, child=child)
             return True
+        if kind == "transact_seq":
+            # several transactions back to back with no read in between (allowed: each only marks the tree stale)
+            if not mc.issec:
+                return False
+            p = self.spec["prices"][child][self.i] * mc.mult
+            qs = []
+            for x in op[3]:
+                q = x * cap / p
+                if self.spec["integer"]:
+                    q = float(math.floor(q))
+                if q != 0:
+                    qs.append(q)
+            if not qs:
+                return False
+            px_mult = op[4] if len(op) > 4 else None
+            if px_mult is not None and self.spec.get("bidoffer") is None:
+                px_mult = None
+            if child not in s.children:
+                s._create_child_if_needed(child)
+            sec = s.children[child]
+            for q in qs:
+                if px_mult is not None:
+                    sec.transact(q, price=self.spec["prices"][child][self.i] * px_mult)
+                else:
+                    sec.transact(q)
+            return True
         if kind == "rebalance":
             w = op[3]
             base = None
@@ -577,7 +603,7 @@ WEIGHTS = st.one_of(st.sampled_from([0.0, 0.1, 0.25, 0.5, -0.2, 1.0, 0.3333]), s
 def op_spec(draw, paths, has_bo):
     k = draw(
         st.sampled_from(
-            ["next", "next", "next", "adjust", "adjust", "rootflow", "alloc", "alloc_child", "alloc_child", "alloc_child", "transact", "transact", "rebalance", "rebalance", "close", "flatten", "update"]
+            ["next", "next", "next", "adjust", "adjust", "rootflow", "alloc", "alloc_child", "alloc_child", "alloc_child", "transact", "transact", "transact_seq", "rebalance", "rebalance", "close", "flatten", "update"]
         )
     )
     if k in ("next", "update"):
@@ -601,6 +627,11 @@ def op_spec(draw, paths, has_bo):
         if has_bo and draw(st.integers(0, 2)) == 0:
             px = draw(st.sampled_from([1.0, 0.99, 1.01, 1.1, 0.9]))
         return [k, path, child, draw(FRACS), px]
+    if k == "transact_seq":
+        x = draw(FRACS)
+        seq = draw(st.sampled_from([[x, -x], [x, -x, x], [x, x, -2 * x], [x, draw(FRACS)], [x, -x, draw(FRACS), draw(FRACS)]]))
+        px = draw(st.sampled_from([None, None, 1.01, 0.98])) if has_bo else None
+        return [k, path, child, seq, px]
     if k == "rebalance":
         base = draw(st.sampled_from([None, None, None, 0.5, 1.0]))
         return [k, path, child, draw(WEIGHTS), base]
@@ -614,6 +645,14 @@ def history_spec(draw, min_ops=3, max_ops=25, max_dates=8, costs=True, allow_mul
     nt = draw(st.integers(1, 4))
     tickers = gen.TICKERS[:nt]
     pr = draw(gen.prices(n, tickers, n_clean=draw(st.integers(1, nt))))
+    # a held position may be marked at exactly zero for a while (bt keeps such a position, with weight 0); trading at a zero price is refused, so
+    # the interpreter skips trade ops on those dates
+    if n >= 3 and draw(st.integers(0, 2)) == 0:
+        t0_ = draw(st.sampled_from(tickers))
+        k0 = draw(st.integers(1, n - 1))
+        for i in range(k0, min(n, k0 + draw(st.integers(1, 3)))):
+            if pr[t0_][i] is not None:
+                pr[t0_][i] = 0.0
     tree = draw(tree_spec(tickers, allow_mult=allow_mult))
     spec = {"dates": ds, "prices": pr, "tree": tree, "integer": draw(st.booleans()), "capital": draw(st.sampled_from([1e6, 1e6, 1e5, 54321.0, 1e8]))}
     if costs:
